@@ -473,7 +473,11 @@ class ExcelModel:
         nodes = {
             k: d['value']
             for k, d in self.dsp.default_values.items()
-            if not isinstance(k, sh.Token)
+            if not isinstance(k, sh.Token) and not (
+                # Blank cells added while assembling the ranges are rebuilt
+                # by `from_dict` (exporting them makes the export drift).
+                k not in self.cells and d['value'] == [[sh.EMPTY]]
+            )
         }
         nodes = {k: _escape_text(v) for k, v in nodes.items()}
         nodes = {
